@@ -267,6 +267,13 @@ theorem pos_index_of_name {a : AtenSchema} (hnd : ((a.positional ++ a.kwonly).ma
   rw [List.getElem?_map, List.getElem?_map, List.getElem?_append_left hi, List.getElem?_append_left hj, hx, hy]
   simp [hn]
 
+
+theorem kReasons_nil_iff (m : Mode) (a : AtenSchema) (s : OsSig) :
+    kReasons m a s = [] ↔ bindsOkK m a s = true := by
+  unfold kReasons bindsOkK
+  cases bindsOk m a s <;> cases posNamed a s <;> cases requiredOwn a s <;>
+    cases nodupS (s.map (·.name)) <;> cases nodupS ((a.positional ++ a.kwonly).map (·.name)) <;> simp
+
 theorem bindsOk_false_clause {m : Mode} {a : AtenSchema} {s : OsSig} (h : bindsOk m a s = false) :
     ∃ c, clauseOk m a s c = false := by
   unfold bindsOk at h
@@ -519,6 +526,97 @@ theorem runDecls_inv (ds : List Decl) (r r' : Reg) (h : RegInv r) (hr : runDecls
     | some r1 =>
       rw [ht] at hr
       exact ih r1 (torchOp_inv r r1 d h ht) hr
+
+
+/-! ### kind discipline: which functions can sit in a real slot -/
+
+theorem addTo_overloads_mem (o : Overloaded) (f : Nat) (cx : Bool) (g : Nat)
+    (h : g ∈ (addTo o f cx).overloads) : g ∈ o.overloads ∨ (g = f ∧ cx = false) := by
+  unfold addTo at h
+  cases cx
+  · simp only [Bool.false_eq_true, if_false] at h
+    split at h
+    · simp only [List.mem_append, List.mem_singleton] at h
+      rcases h with h | h
+      · exact Or.inl h
+      · exact Or.inr ⟨h, rfl⟩
+    · exact Or.inl h
+  · simp only [if_true] at h
+    split at h <;> exact Or.inl h
+
+theorem register_overloads_mem (r : Reg) (x : Registration) (o : Overloaded) (g : Nat)
+    (ho : o ∈ register r x) (hg : g ∈ o.overloads) :
+    (∃ o' ∈ r, g ∈ o'.overloads) ∨ (g = x.func ∧ x.isComplex = false) := by
+  induction r with
+  | nil =>
+    simp only [register, List.mem_singleton] at ho
+    subst ho
+    rcases addTo_overloads_mem _ _ _ _ hg with h | h
+    · simp at h
+    · exact Or.inr h
+  | cons q qs ih =>
+    simp only [register] at ho
+    by_cases e : (q.name == x.name) = true
+    · rw [if_pos e] at ho
+      rcases List.mem_cons.mp ho with rfl | hm
+      · rcases addTo_overloads_mem _ _ _ _ hg with h | h
+        · exact Or.inl ⟨q, by simp, h⟩
+        · exact Or.inr h
+      · exact Or.inl ⟨o, by simp [hm], hg⟩
+    · rw [if_neg e] at ho
+      rcases List.mem_cons.mp ho with rfl | hm
+      · exact Or.inl ⟨o, by simp, hg⟩
+      · rcases ih hm with ⟨o', ho', hg'⟩ | h
+        · exact Or.inl ⟨o', by simp [ho'], hg'⟩
+        · exact Or.inr h
+
+/-- No function satisfying `bad` sits in a real slot. -/
+def RealClean (bad : Nat → Bool) (r : Reg) : Prop := ∀ o ∈ r, ∀ g ∈ o.overloads, bad g = false
+
+theorem register_realClean (bad : Nat → Bool) (r : Reg) (x : Registration) (h : RealClean bad r)
+    (hx : x.isComplex = false → bad x.func = false) : RealClean bad (register r x) := by
+  intro o ho g hg
+  rcases register_overloads_mem r x o g ho hg with ⟨o', ho', hg'⟩ | ⟨rfl, hc⟩
+  · exact h o' ho' g hg'
+  · exact hx hc
+
+theorem torchOp_realClean (bad : Nat → Bool) (r r' : Reg) (d : Decl) (h : RealClean bad r)
+    (hd : bad d.func = true → d.isComplex = true) (ht : torchOp r d = some r') : RealClean bad r' := by
+  unfold torchOp at ht
+  split at ht
+  · simp only [Option.some.injEq] at ht
+    subst ht
+    split
+    · exact h
+    · have : ∀ (names : List String) (r : Reg), RealClean bad r →
+          RealClean bad (names.foldl (fun r n => register r ⟨d.func, n, d.isComplex⟩) r) := by
+        intro names
+        induction names with
+        | nil => intro r hr; exact hr
+        | cons n ns ih =>
+          intro r hr
+          simp only [List.foldl_cons]
+          apply ih
+          apply register_realClean bad r _ hr
+          intro hc
+          cases hb : bad d.func with
+          | false => rfl
+          | true => simp only at hc; rw [hd hb] at hc; cases hc
+      exact this _ r h
+  · cases ht
+
+theorem runDecls_realClean (bad : Nat → Bool) (ds : List Decl) (r r' : Reg) (h : RealClean bad r)
+    (hd : ∀ d ∈ ds, bad d.func = true → d.isComplex = true) (hr : runDecls r ds = some r') :
+    RealClean bad r' := by
+  induction ds generalizing r with
+  | nil => simp only [runDecls, Option.some.injEq] at hr; subst hr; exact h
+  | cons d ds ih =>
+    simp only [runDecls] at hr
+    cases ht : torchOp r d with
+    | none => rw [ht] at hr; cases hr
+    | some r1 =>
+      rw [ht] at hr
+      exact ih r1 (torchOp_realClean bad r r1 d h (hd d (by simp)) ht) (fun d' hd' => hd d' (by simp [hd'])) hr
 
 /-! ### first registration wins, as a lookup law -/
 
